@@ -2,106 +2,169 @@
   Property C16 — log-sink zip batching emits every record exactly once, in order, decodably.
 
   Statements about the CodeModel `Golib.ZipSender.Model` of logsink/zip/ZipSendProxyThread.go;
-  the proofs refer to lemmas of `Golib.ZipSender.{Lemmas,History,Theorems}`.
+  the proofs refer to lemmas of `Golib.ZipSender.{Lemmas,History,Theorems,Answers,Loop,LogSink}`.
 
   The model is tied to the Go code by the correspondence harness `harness/c16` (tie B: real
-  sender, recording client, stepped and free-running background loop) and by the regenerated
-  facts of `Golib.Gen.C16` (tie A: see Golib/Props/C16Gen.lean).
+  sender, recording and faulting client, stepped and free-running background loop) and by the
+  regenerated facts of `Golib.Gen.C16` (tie A, interpreted: see Golib/Props/C16Gen.lean).
 
-  `Variant.fixed` is the code with the three repairs proposed in /verif/proposed/C16
-  (D31 defaults kept, D32 uncompressed payload copied at hand-over, D33 queue drained on stop);
-  `Variant.asFound` is the code as found and carries the `finding_*` witnesses.  Theorems
-  quantified over `v` hold for both.
+  `Variant.fixed` is the repaired code (D31 defaults kept, D32 uncompressed payload copied at
+  hand-over, D33 queue drained on stop); `Variant.asFound` is the code as found and carries the
+  `finding_*` witnesses; `Variant.returnOnError` is the seeded regression "sendAndClear returns when
+  SendFlush fails".  Theorems quantified over `v` need `hr : v.resetOnError = true` (true for
+  `fixed` and `asFound` by `rfl`): the code logs a transmission error and resets the batch anyway.
+
+  Every theorem about a fresh sender quantifies over `ans`, the client's answers to the hand-overs
+  to come: a faulting client is part of every statement.
 
   Assumptions appear as structures/hypotheses, never as axioms:
-    `Unzip Z`     gzip round-trips            (compress/gzip, not modelled)
-    `Decoder C`   the record codec round-trips (LogSinkPack wire format: property C03)
-    `∀ r, C.enc r ≠ []`  a record's encoding is not empty (it starts with the 2-byte pack type)
+    `Unzip Z`     gzip round-trips (compress/gzip, not modelled) — the only assumption left in
+                  `decodable_logsink`, where the record codec is the real LogSinkPack layout (C03)
+    `Decoder C`   (generic form only) a record codec that round-trips
+    `∀ r, C.enc r ≠ []`  a record's encoding is not empty (proved for the LogSinkPack layout)
 -/
 import Golib.ZipSender.Theorems
+import Golib.ZipSender.Answers
+import Golib.ZipSender.Loop
+import Golib.ZipSender.LogSink
 
 namespace C16
 open ZipSender
 open Prim (encMany)
 
-variable {ρ : Type} (v : Variant) (Z : Zip) (C : Codec ρ)
+variable {ρ : Type} (v : Variant) (Z : Zip) (C : Codec ρ) (hr : v.resetOnError = true)
+
+example : Variant.fixed.resetOnError = true ∧ Variant.asFound.resetOnError = true := ⟨rfl, rfl⟩
 
 /-! ### every record exactly once, in order -/
 
-/-- For every history from a fresh sender: the queue is FIFO and loses nothing it accepted
-    (`deq ++ queue = accepted`), and the records in the emitted batches followed by the batch
-    under construction are an order-preserving merge of what the loop dequeued and what was
-    passed to `Append` directly — nothing lost, nothing duplicated, nothing reordered. -/
-theorem exactly_once_in_order (st : Settings) (h : List (In ρ)) :
-    ∃ deq, deq ++ (final v Z C (init st) h).queue = accepted v Z C (init st) h ∧
+include hr in
+/-- For every history from a fresh sender and every behaviour `ans` of the client: the queue is
+    FIFO and loses nothing it accepted (`deq ++ queue = accepted`), and the records in the emitted
+    batches followed by the batch under construction are an order-preserving merge of what the loop
+    dequeued and what was passed to `Append` directly — nothing lost, duplicated or reordered. -/
+theorem exactly_once_in_order (st : Settings) (ans : List Bool) (h : List (In ρ)) :
+    ∃ deq, deq ++ (final v Z C (init st ans) h).queue = accepted v Z C (init st ans) h ∧
       Interleave deq (directAppends h)
-        (sharedRecs (emitted v Z C (init st) h) ++ (final v Z C (init st) h).buf.reverse) := by
-  obtain ⟨deq, fed, h1, h2, h3⟩ := history_inv v Z C h (init st)
+        (sharedRecs (emitted v Z C (init st ans) h) ++ (final v Z C (init st ans) h).buf.reverse) := by
+  obtain ⟨deq, fed, h1, h2, h3⟩ := history_inv v Z C h hr (init st ans)
   refine ⟨deq, by simpa [init] using h1, ?_⟩
-  have : sharedRecs (emitted v Z C (init st) h) ++ (final v Z C (init st) h).buf.reverse = fed := by
+  have : sharedRecs (emitted v Z C (init st ans) h) ++ (final v Z C (init st ans) h).buf.reverse = fed := by
     simpa [init] using h3
   rw [this]; exact h2
 
+include hr in
 /-- queue path alone (the sender used through `Add` only):
     emitted ++ buffered ++ queued = accepted, as lists -/
-theorem exactly_once_queue_path (st : Settings) (h : List (In ρ)) (hq : directAppends h = []) :
-    sharedRecs (emitted v Z C (init st) h) ++ (final v Z C (init st) h).buf.reverse
-      ++ (final v Z C (init st) h).queue = accepted v Z C (init st) h := by
-  obtain ⟨deq, h1, h2⟩ := exactly_once_in_order v Z C st h
+theorem exactly_once_queue_path (st : Settings) (ans : List Bool) (h : List (In ρ)) (hq : directAppends h = []) :
+    sharedRecs (emitted v Z C (init st ans) h) ++ (final v Z C (init st ans) h).buf.reverse
+      ++ (final v Z C (init st ans) h).queue = accepted v Z C (init st ans) h := by
+  obtain ⟨deq, h1, h2⟩ := exactly_once_in_order v Z C hr st ans h
   rw [hq] at h2
   rw [h2.nil_right, h1]
 
+include hr in
 /-- `Append` path alone (the sender used without its queue): emitted ++ buffered = appended -/
-theorem exactly_once_append_path (st : Settings) (h : List (In ρ)) (hq : accepted v Z C (init st) h = []) :
-    sharedRecs (emitted v Z C (init st) h) ++ (final v Z C (init st) h).buf.reverse = directAppends h := by
-  obtain ⟨deq, h1, h2⟩ := exactly_once_in_order v Z C st h
+theorem exactly_once_append_path (st : Settings) (ans : List Bool) (h : List (In ρ))
+    (hq : accepted v Z C (init st ans) h = []) :
+    sharedRecs (emitted v Z C (init st ans) h) ++ (final v Z C (init st ans) h).buf.reverse = directAppends h := by
+  obtain ⟨deq, h1, h2⟩ := exactly_once_in_order v Z C hr st ans h
   rw [hq] at h1
   have : deq = [] := (List.append_eq_nil_iff.mp h1).1
   rw [this] at h2
   exact h2.nil_left
 
+include hr in
 /-- `SendDirect`: the packs it hands over hold exactly its arguments, in order -/
 theorem exactly_once_direct (hne : ∀ r, C.enc r ≠ []) (s : State ρ) (h : List (In ρ)) :
     directRecs (emitted v Z C s h) = directSent h :=
-  history_direct v Z C hne h s
+  history_direct v Z C hne h hr s
 
 /-- once the (repaired) sender is stopped, everything accepted or appended before has been emitted -/
-theorem all_emitted_at_stop (hne : ∀ r, C.enc r ≠ []) (st : Settings) (h : List (In ρ))
-    (hs : (final .fixed Z C (init st) h).stopped = false) :
-    Interleave (accepted .fixed Z C (init st) (h ++ [.stop])) (directAppends h)
-      (sharedRecs (emitted .fixed Z C (init st) (h ++ [.stop]))) :=
-  ZipSender.all_emitted_at_stop .fixed Z C rfl hne st h hs
+theorem all_emitted_at_stop (hne : ∀ r, C.enc r ≠ []) (st : Settings) (ans : List Bool) (h : List (In ρ))
+    (hs : (final .fixed Z C (init st ans) h).stopped = false) :
+    Interleave (accepted .fixed Z C (init st ans) (h ++ [.stop])) (directAppends h)
+      (sharedRecs (emitted .fixed Z C (init st ans) (h ++ [.stop]))) :=
+  ZipSender.all_emitted_at_stop .fixed Z C rfl rfl hne st ans h hs
+
+/-! ### acceptance is the C11 queue's answer -/
+
+/-- `Add` is `RequestQueue.Put` of the C11 model (`Golib.Queue.Seq`): same content afterwards,
+    same answer, `accepted` / `failed` event; a full queue refuses the newcomer and keeps the rest -/
+theorem add_is_queue_put (key : ρ → Nat) (s : State ρ) (r : ρ) :
+    Queue.step (qAbs key s) (.put (key r)) =
+      (qAbs key (add s r).1, .bool (canPut s),
+       [if canPut s then Queue.Ev.accepted (key r) else Queue.Ev.failed (key r)]) :=
+  add_refines_put key s r
+
+/-- what the loop takes out is what the C11 queue's `GetTimeout` delivers (handles are non-nil) -/
+theorem dequeue_is_queue_getTimeout (key : ρ → Nat) (s : State ρ) (k : Nat) (hk : ∀ r ∈ s.queue, key r ≠ 0) :
+    Queue.step (qAbs key s) (.getTimeout k) =
+      match s.queue with
+      | [] => (qAbs key s, .val 0, [])
+      | r :: q => (qAbs key { s with queue := q }, .val (key r), [.delivered (key r)]) :=
+  dequeue_refines_getTimeout key s k hk
+
+include hr in
+/-- exactly-once with acceptance *defined* by the C11 model (`acceptedQ`: the records for which
+    `Queue.step … (.put …)` answered `true`) -/
+theorem exactly_once_accepted_by_queue (key : ρ → Nat) (st : Settings) (ans : List Bool) (h : List (In ρ))
+    (hq : directAppends h = []) :
+    sharedRecs (emitted v Z C (init st ans) h) ++ (final v Z C (init st ans) h).buf.reverse
+      ++ (final v Z C (init st ans) h).queue = acceptedQ key v Z C (init st ans) h := by
+  rw [acceptedQ_eq]; exact exactly_once_queue_path v Z C hr st ans h hq
 
 /-! ### per pack: count, payload, compression flag -/
 
-theorem count_matches (st : Settings) (h : List (In ρ)) :
-    ∀ p ∈ emitted v Z C (init st) h, p.count = p.recs.length :=
-  (history_WF v Z C h (init st) (WF_init C st)).2
+include hr in
+theorem count_matches (st : Settings) (ans : List Bool) (h : List (In ρ)) :
+    ∀ p ∈ emitted v Z C (init st ans) h, p.count = p.recs.length :=
+  (history_WF v Z C h hr (init st ans) (WF_init C st ans)).2
 
+include hr in
 /-- the payload, after decompression when flagged, decodes back to exactly the pack's records
-    and nothing is left over -/
-theorem decodable (U : Unzip Z) (D : Decoder C) (st : Settings) (h : List (In ρ)) :
-    ∀ p ∈ emitted v Z C (init st) h, (∀ r ∈ p.recs, D.wf r) → decodePack U D p = some (p.recs, []) := by
+    (their observations under the decoder) and nothing is left over -/
+theorem decodable (U : Unzip Z) (D : Decoder C) (st : Settings) (ans : List Bool) (h : List (In ρ)) :
+    ∀ p ∈ emitted v Z C (init st ans) h, (∀ r ∈ p.recs, D.wf r) →
+      decodePack U D p = some (p.recs.map D.obs, []) := by
   intro p hp hw
-  obtain ⟨st', hb⟩ := emitted_built v Z C h (init st) p hp
-  exact decode_built U D hb (count_matches v Z C st h p hp) hw
+  obtain ⟨st', hb⟩ := emitted_built v Z C h (init st ans) hr p hp
+  exact decode_built U D hb (count_matches v Z C hr st ans h p hp) hw
 
+/-- **with the real record format**: records are LogSinkPacks in the wire layout of C03
+    (`LogSink.codec`: type code 0x170a, header, Category, TagHash, Tags, Line, Content, optional
+    Fields; reader layout regenerated from LogSinkPack.Read).  For every factory that maps the type
+    code to that reader, every pack's payload — decompressed when flagged — reads back, with
+    `readPack` `count` times, as the carried fields of exactly its records.  The only assumption
+    left is `Unzip` (gzip). -/
+theorem decodable_logsink (hr : v.resetOnError = true) (U : Unzip Z) (fac : Packs.Factory) (hf : LogSink.Fac fac)
+    (st : Settings) (ans : List Bool) (h : List (In Layout.Rec)) :
+    ∀ p ∈ emitted v Z LogSink.codec (init st ans) h, (∀ x ∈ p.recs, LogSink.WFRec x) →
+      decodePack U (LogSink.decoder fac hf) p = some (p.recs.map (fun x => (LogSink.pv x).carried), []) :=
+  decodable v Z LogSink.codec hr U (LogSink.decoder fac hf) st ans h
+
+/-- the non-emptiness hypothesis of `exactly_once_direct` / `all_emitted_at_stop` holds for it -/
+theorem logsink_encoding_nonempty (x : Layout.Rec) : LogSink.codec.enc x ≠ [] := LogSink.enc_ne_nil x
+
+include hr in
 /-- compression is applied exactly when the payload reaches the minimum size in force at
     the moment the pack is built (`x.1` = the settings in force, `x.2` = the pack) -/
 theorem zipped_iff (s : State ρ) (h : List (In ρ)) :
     ∀ x ∈ (run v Z C s h).2, (x.2.zipped = true ↔ x.1.zipMin ≤ ((encMany C.enc x.2.recs).length : Int)) :=
-  fun x hx => (history_built v Z C h s x hx).zipped_iff
+  fun x hx => (history_built v Z C h hr s x hx).zipped_iff
 
+include hr in
 /-- … and without configuration updates the settings in force are the initial ones -/
-theorem zipped_iff_const (st : Settings) (h : List (In ρ)) (hc : ∀ i ∈ h, isConfig i = false) :
-    ∀ p ∈ emitted v Z C (init st) h, (p.zipped = true ↔ st.zipMin ≤ ((encMany C.enc p.recs).length : Int)) := by
+theorem zipped_iff_const (st : Settings) (ans : List Bool) (h : List (In ρ)) (hc : ∀ i ∈ h, isConfig i = false) :
+    ∀ p ∈ emitted v Z C (init st ans) h, (p.zipped = true ↔ st.zipMin ≤ ((encMany C.enc p.recs).length : Int)) := by
   intro p hp
   obtain ⟨x, hx, rfl⟩ := List.mem_map.mp hp
-  have := zipped_iff v Z C (init st) h x hx
-  rwa [(settings_const v Z C h (init st) hc).2 x hx] at this
+  have := zipped_iff v Z C hr (init st ans) h x hx
+  rwa [(settings_const v Z C h hr (init st ans) hc).2 x hx] at this
 
 /-! ### flush conditions -/
 
+include hr in
 /-- `Append`: the batch is flushed as soon as the buffer size in force is reached or the
     record is at least the waiting time in force younger than the first one of the batch -/
 theorem flush_on_append (s : State ρ) (r : ρ)
@@ -110,7 +173,7 @@ theorem flush_on_append (s : State ρ) (r : ρ)
     (appendRec v Z C s r).1.bufLen = 0 ∧
     (0 < s.bufLen + (C.enc r).length →
       (appendRec v Z C s r).1.buf = [] ∧ (appendRec v Z C s r).2.map (·.recs) = [s.buf.reverse ++ [r]]) :=
-  ⟨append_flushes v Z C s r hm, append_flushes_pack v Z C s r hm⟩
+  ⟨append_flushes v Z C s r hr hm, append_flushes_pack v Z C s r hr hm⟩
 
 /-- … and only then: otherwise the record is buffered and nothing is handed over -/
 theorem no_flush_below_limits (s : State ρ) (r : ρ)
@@ -119,42 +182,135 @@ theorem no_flush_below_limits (s : State ρ) (r : ρ)
     (appendRec v Z C s r).2 = [] ∧ (appendRec v Z C s r).1.buf = r :: s.buf :=
   append_buffers v Z C s r hm
 
+include hr in
 /-- the idle timeout of the queue flushes the batch -/
 theorem flush_on_idle (s : State ρ) (hs : s.stopped = false) (hq : s.queue = []) :
-    (step v Z C s).1.bufLen = 0 := idle_flushes v Z C s hs hq
+    (step v Z C s).1.bufLen = 0 := idle_flushes v Z C s hr hs hq
 
 /-- stopping flushes the batch, and (repaired code) first drains the queue into it -/
 theorem flush_on_stop (s : State ρ) (hs : s.stopped = false) :
     (stop .fixed Z C s).1.bufLen = 0 ∧ (stop .fixed Z C s).1.queue = [] ∧ (stop .fixed Z C s).1.stopped = true :=
-  ⟨stop_flushes .fixed Z C s hs, stop_drains .fixed Z C rfl s hs, stop_stopped .fixed Z C s⟩
+  ⟨stop_flushes .fixed Z C s rfl hs, stop_drains .fixed Z C rfl s rfl hs, stop_stopped .fixed Z C s⟩
 
+include hr in
 /-- "no bytes buffered" means "no records buffered" when encodings are non-empty -/
-theorem flushed_means_empty (hne : ∀ r, C.enc r ≠ []) (st : Settings) (h : List (In ρ))
-    (h0 : (final v Z C (init st) h).bufLen = 0) : (final v Z C (init st) h).buf = [] :=
-  buf_nil_of_len C hne _ (history_WF v Z C h (init st) (WF_init C st)).1 h0
+theorem flushed_means_empty (hne : ∀ r, C.enc r ≠ []) (st : Settings) (ans : List Bool) (h : List (In ρ))
+    (h0 : (final v Z C (init st ans) h).bufLen = 0) : (final v Z C (init st ans) h).buf = [] :=
+  buf_nil_of_len C hne _ (history_WF v Z C h hr (init st ans) (WF_init C st ans)).1 h0
+
+/-! ### a hand-over is final: the client's answer changes nothing -/
+
+include hr in
+/-- two runs that differ only in what the client answers (`a`, `a'`: any streams of
+    ok / transmission error) hand over the same packs, paired with the same settings, and end in the
+    same state up to the answers not yet consumed — a failed hand-over is neither repeated nor taken back -/
+theorem hand_over_final (st : Settings) (a a' : List Bool) (h : List (In ρ)) :
+    (run v Z C (init st a) h).2 = (run v Z C (init st a') h).2 ∧
+    Sim (run v Z C (init st a) h).1 (run v Z C (init st a') h).1 :=
+  let r := run_sim v Z C hr h (s := init st a) (t := init st a') rfl
+  ⟨r.2, r.1⟩
+
+/-- the regression "return before the reset when SendFlush fails" (seeded, not in the code):
+    the batch whose hand-over failed is handed over a second time inside the next pack -/
+theorem finding_return_on_error_duplicates :
+    sharedRecs (emitted .returnOnError ⟨fun b => 31 :: b⟩ (⟨(·.2), (·.1)⟩ : Codec (Int × Bytes)) (init defaults [false])
+      [.append (1000, [1]), .step, .append (1001, [2]), .step]) = [(1000, [1]), (1000, [1]), (1001, [2])] := by
+  decide
 
 /-! ### a pack that has been handed over never changes -/
 
 /-- repaired code: every emitted pack owns its bytes … -/
 theorem handed_over_owned (s : State ρ) (h : List (In ρ)) :
     ∀ p ∈ emitted .fixed Z C s h, p.ref = .owned :=
-  all_owned .fixed Z C rfl h s
+  all_owned .fixed Z C rfl rfl h s
 
 /-- … hence whatever happens later (`h'`), a client that retained the pack still reads the
     payload it was handed -/
-theorem handed_over_immutable (st : Settings) (h h' : List (In ρ)) :
-    ∀ p ∈ emitted .fixed Z C (init st) h, view C (final .fixed Z C (init st) (h ++ h')) p = p.payload :=
-  fun p hp => view_owned C _ p (handed_over_owned Z C (init st) h p hp)
+theorem handed_over_immutable (st : Settings) (ans : List Bool) (h h' : List (In ρ)) :
+    ∀ p ∈ emitted .fixed Z C (init st ans) h, view C (final .fixed Z C (init st ans) (h ++ h')) p = p.payload :=
+  fun p hp => view_owned C _ p (handed_over_owned Z C (init st ans) h p hp)
 
 /-- code as found: compressed packs are safe (gzip allocates), and an aliased pack is intact
     at the moment of the hand-over — the damage comes later (`finding_D32`) -/
 theorem found_zipped_owned (s : State ρ) (h : List (In ρ)) :
     ∀ p ∈ emitted .asFound Z C s h, p.zipped = true → p.ref = .owned :=
-  zipped_owned .asFound Z C h s
+  zipped_owned .asFound Z C rfl h s
 
 theorem found_intact_at_handover (s : State ρ) :
     ∀ p ∈ (sendAndClear .asFound Z C s).2, view C (sendAndClear .asFound Z C s).1 p = p.payload :=
-  view_at_handover .asFound Z C s
+  view_at_handover .asFound Z C s rfl
+
+/-! ### the real background loop: every schedule is a history -/
+
+include hr in
+/-- `run()` as an action machine (program counter `top` / `polling n` / `exited`; producers,
+    configuration updates and the cancellation interleave freely with its `select` and `poll`
+    actions; the cancellation is noticed only at the `select`): every execution hands over exactly
+    the packs, and reaches exactly the sender state, of the atomic-action history `absHist` —
+    so every theorem of this file about histories holds for every schedule of the real loop -/
+theorem loop_refines (st : Settings) (ans : List Bool) (as : List (Act ρ)) :
+    (lrun v Z C (linit st ans) as).1.core = final v Z C (init st ans) (absHist v Z C (linit st ans) as) ∧
+    (lrun v Z C (linit st ans) as).2 = emitted v Z C (init st ans) (absHist v Z C (linit st ans) as) :=
+  let r := ZipSender.loop_refines v Z C hr as (linit st ans) (LInv_init st ans)
+  ⟨r.1, r.2.1⟩
+
+include hr in
+/-- exactly once and in order, counts, over the schedules of the loop itself -/
+theorem loop_exactly_once (st : Settings) (ans : List Bool) (as : List (Act ρ)) :
+    sharedRecs (lrun v Z C (linit st ans) as).2 ++ (lrun v Z C (linit st ans) as).1.core.buf.reverse
+      ++ (lrun v Z C (linit st ans) as).1.core.queue
+      = accepted v Z C (init st ans) (absHist v Z C (linit st ans) as) ∧
+    ∀ p ∈ (lrun v Z C (linit st ans) as).2, p.count = p.recs.length := by
+  obtain ⟨h1, h2⟩ := loop_refines v Z C hr st ans as
+  rw [h1, h2]
+  exact ⟨exactly_once_queue_path v Z C hr st ans _ (absHist_no_append v Z C as _),
+         count_matches v Z C hr st ans _⟩
+where
+  absHist_no_append (v : Variant) (Z : Zip) (C : Codec ρ) (as : List (Act ρ)) :
+      ∀ l : LState ρ, directAppends (absHist v Z C l as) = [] := by
+    induction as with
+    | nil => intro l; rfl
+    | cons a as ih =>
+      intro l
+      simp only [absHist, directAppends_append, ih, List.append_nil]
+      cases a with
+      | add r => rfl
+      | sendDirect rs => rfl
+      | applyConfig c => rfl
+      | cancel => rfl
+      | select k => simp only [absAct]; split <;> rfl
+      | poll =>
+        simp only [absAct]
+        split
+        · split <;> rfl
+        · rfl
+
+include hr in
+/-- the idle timeout: loop at its `select`, not cancelled, nothing queued, producers silent —
+    GetTimeout runs out of its `k + 1` polls and the batch is flushed -/
+theorem loop_idle_timeout_flushes (l : LState ρ) (k : Nat) (hpc : l.pc = .top) (hc : l.cancelled = false)
+    (hq : l.core.queue = []) :
+    (lrun v Z C l (.select k :: List.replicate (k + 1) .poll)).1.core.bufLen = 0 ∧
+    (lrun v Z C l (.select k :: List.replicate (k + 1) .poll)).1.pc = .top :=
+  idle_timeout_flushes v Z C hr l k hpc hc hq
+
+/-- GetTimeout always returns: `n` polls bring the loop back to its `select`, whatever happened before -/
+theorem loop_polls_reach_top (n : Nat) (l : LState ρ) (hpc : l.pc = .polling n) (hn : n ≠ 0) :
+    (lrun v Z C l (List.replicate n .poll)).1.pc = .top :=
+  polls_reach_top v Z C n l hpc hn
+
+/-- cancellation (repaired code): at its next `select` the loop drains the queue into the last
+    batch, flushes it and returns -/
+theorem loop_cancel_exits (l : LState ρ) (k : Nat) (hi : LInv l) (hpc : l.pc = .top) (hc : l.cancelled = true) :
+    let l' := (lstep .fixed Z C l (.select k)).1
+    l'.pc = .exited ∧ l'.core.queue = [] ∧ l'.core.bufLen = 0 ∧ l'.core.stopped = true :=
+  cancel_exits .fixed Z C rfl rfl l k hi hpc hc
+
+/-- the verification hook `StepForVerif` that the deterministic harness drives is exactly one
+    iteration of the modelled loop whose GetTimeout allows a single poll -/
+theorem hook_step_is_loop_body (l : LState ρ) (hi : LInv l) (hpc : l.pc = .top) (hc : l.cancelled = false) :
+    lrun v Z C l [.select 0, .poll] = hookStep v Z C l :=
+  hookStep_is_loop_body v Z C l hi hpc hc
 
 /-! ### defaults and configuration -/
 
@@ -179,14 +335,16 @@ theorem config_present (q w b z : Int) : (Conf.mk (some q) (some w) (some b) (so
 
 theorem config_absent : (Conf.mk none none none none).resolve = ⟨2000, 1000, 65536, 100⟩ := rfl
 
+include hr in
 /-- … and they stay in force for every pack built until the next configuration update -/
 theorem config_stays (s : State ρ) (c : Conf) (h : List (In ρ)) (hc : ∀ i ∈ h, isConfig i = false) :
     ∀ x ∈ (run v Z C (stepIn v Z C s (.applyConfig c)).1 h).2, x.1 = c.resolve :=
-  (settings_const v Z C h _ hc).2
+  (settings_const v Z C h hr _ hc).2
 
+include hr in
 /-- no operation other than `ApplyConfig` touches the settings -/
 theorem settings_stable (s : State ρ) (h : List (In ρ)) (hc : ∀ i ∈ h, isConfig i = false) :
-    (final v Z C s h).settings = s.settings := (settings_const v Z C h s hc).1
+    (final v Z C s h).settings = s.settings := (settings_const v Z C h hr s hc).1
 
 /-! ### witnesses: the code as found violates the property (candidate defects D31–D33)
 
@@ -257,15 +415,14 @@ theorem fixed_D33 :
 /-- a record codec satisfying the `Decoder` hypothesis: 8-byte time, then a length-prefixed blob -/
 def yC : Codec (Int × Bytes) := ⟨fun r => Prim.encI 8 r.1 ++ Prim.encBlob r.2, (·.1)⟩
 
-def yD : Decoder yC where
-  dec := P.bind (Prim.rdI 8) (fun t => P.bind Prim.decBlob (fun b => .pure (t, b)))
-  wf := fun r => Prim.inRange 8 r.1 ∧ r.2.length < 2147483648
-  rt := by
+def yD : Decoder yC :=
+  Decoder.ofP (P.bind (Prim.rdI 8) (fun t => P.bind Prim.decBlob (fun b => .pure (t, b))))
+    (fun r => Prim.inRange 8 r.1 ∧ r.2.length < 2147483648) (by
     intro r rest hw
     show P.run _ ((Prim.encI 8 r.1 ++ Prim.encBlob r.2) ++ rest) = _
     rw [List.append_assoc, P.run_bind_some _ _ _ _ _ (Prim.run_rdI 8 r.1 _ hw.1),
       P.run_bind_some _ _ _ _ _ (Prim.run_decBlob r.2 rest hw.2)]
-    rfl
+    rfl)
 
 example : ∀ r : Int × Bytes, yC.enc r ≠ [] := by
   intro r h
@@ -286,12 +443,54 @@ example : (emitted .fixed xZ xC (init ⟨5000, 1000, 5, 3⟩) demo).map (fun p =
      (.direct, [1, 2], 2, true), (.direct, [3], 1, false), (.shared, [9002], 1, true)] := by decide
 
 /-- the hypotheses of `decodable` are satisfiable: instance with `yC`, `yD`, `xU` -/
-example (st : Settings) (h : List (In (Int × Bytes))) :=
-  decodable .fixed xZ yC xU yD st h
+example (st : Settings) (ans : List Bool) (h : List (In (Int × Bytes))) :=
+  decodable .fixed xZ yC rfl xU yD st ans h
 
 /-- … and its well-formedness side condition holds for ordinary records -/
 example : yD.wf (1700000000000, [1, 2, 3]) := by
   show Prim.inRange 8 _ ∧ _
   exact ⟨(Prim.inRange_8 _).mpr (by omega), by decide⟩
+
+/-- `decodable_logsink` is not vacuous: the factory `fac0` qualifies, gzip-as-prefix is an `Unzip` -/
+example (st : Settings) (ans : List Bool) (h : List (In Layout.Rec)) :=
+  decodable_logsink .fixed xZ rfl xU LogSink.fac0 LogSink.fac0_ok st ans h
+
+/-- a faulting client on a concrete history: every hand-over answered with an error, same packs -/
+example : (emitted .fixed xZ xC (init ⟨5000, 1000, 5, 3⟩ [false, false, false, false, false, false]) demo).map (·.recs) =
+    (emitted .fixed xZ xC (init ⟨5000, 1000, 5, 3⟩) demo).map (·.recs) := by decide
+
+/-- a schedule of the loop machine: two producers' records, a GetTimeout that polls three times
+    before it finds the first one, an idle timeout, a cancellation noticed at the next select -/
+example : ((lrun .fixed xZ xC (linit ⟨5000, 1000, 100, 3⟩)
+      [.select 2, .poll, .poll, .add (1000, [1, 2]), .poll, .add (1001, [3]), .select 0, .poll,
+       .select 1, .poll, .poll, .add (1002, [4]), .cancel, .select 0]).2.map (·.recs)) =
+    [[(1000, [1, 2]), (1001, [3])], [(1002, [4])]] := by decide
+
+section
+open Layout Packs
+/-- a LogSinkPack meeting the writer's guards `LogSink.WFRec` (tags present, no fields) -/
+def demoLS : Layout.Rec := fun k =>
+  if k = "Pcode" then .int 7 else if k = "Oid" then .int 31 else if k = "Time" then .int 1700000000000
+  else if k = "Category" then .bytes [99, 97, 116] else if k = "TagHash" then .int 0
+  else if k = "Tags" then .value (.map [([107], .text [118])]) else if k = "Line" then .int 1
+  else if k = "Content" then .bytes [104, 105] else if k = "Fields?" then .int 0
+  else if k = "Fields" then .value (.map []) else .int 0
+
+example : LogSink.WFRec demoLS := by
+  unfold LogSink.WFRec Packs.Hand.LogSinkPack.w
+  simp only [L.WF]
+  refine ⟨?_, ?_, ?_, rfl, ?_, ?_, ⟨?_, _, rfl⟩, rfl, ?_, ?_, ?_, rfl, ?_, trivial⟩
+  · show Layout.Hdr.WF ⟨7, 31, 0, 0, 1700000000000⟩; decide
+  · show (0 : Int) ≤ 0 ∧ (0 : Int) < 256; decide
+  · show [99, 97, 116].length < 2147483648; decide
+  · show Prim.inRange 8 0; decide
+  · show Prim.inRange 8 0; decide
+  · show Value.WFV (.map [([107], .text [118])]); decide
+  · show Prim.inRange 8 1; decide
+  · show Prim.inRange 8 1; decide
+  · show [104, 105].length < 2147483648; decide
+  · intro h; exact absurd h (by decide)
+
+end
 
 end C16
